@@ -57,11 +57,14 @@ __CPROVER_ensures(vf_clock == __CPROVER_old(vf_clock) + 1 && vf_n_dec == __CPROV
 /* push of a work unit into its pool: it becomes visible to every stream that
  * serves the pool, which may pop it and re-associate it at once, so the pool
  * field is unstable afterwards (havoc). */
-ABTI_pool *vf_any_pool;
+ABTI_pool *vf_any_pool; void *vf_sw_cb_arg, *vf_sw_cb_arg_live; /* argument block handed to the post-switch callback (set by the switch model below; _live only while the callback runs) */
 static inline void ABTI_pool_add_thread(ABTI_thread *p_thread, ABT_pool_context context)
 __CPROVER_requires(__CPROVER_is_fresh(p_thread, sizeof(*p_thread)))
 __CPROVER_requires(p_thread == &vf_self->thread ==> VF_PUB_OK)
 __CPROVER_assigns(p_thread->state.val, p_thread->p_pool, vf_clock, vf_self_pushes, vf_t_push, vf_push_pool, vf_push_ctx, vf_other_pushes, vf_other_pushed, vf_other_push_pool, vf_other_push_ctx, vf_t_other_push)
+/* ... and once the running ULT itself is visible, another stream may resume it: everything on ITS stack -- the argument block of the
+ * post-switch callback lives there -- is unstable from now on (C02: nothing of a ULT's stack is used after the ULT has been published) */
+__CPROVER_assigns(p_thread == &vf_self->thread && vf_sw_cb_arg_live != NULL: __CPROVER_object_whole(vf_sw_cb_arg_live))
 __CPROVER_ensures(vf_clock == __CPROVER_old(vf_clock) + 1 && p_thread->state.val == ABT_THREAD_STATE_READY)
 __CPROVER_ensures(p_thread == &vf_self->thread ? (vf_self_pushes == __CPROVER_old(vf_self_pushes) + 1 && vf_t_push == vf_clock && vf_push_pool == __CPROVER_old(p_thread->p_pool) && vf_push_ctx == (int)context && vf_other_pushes == __CPROVER_old(vf_other_pushes))
                                                 : (vf_other_pushes == __CPROVER_old(vf_other_pushes) + 1 && vf_other_pushed == p_thread && vf_other_push_pool == __CPROVER_old(p_thread->p_pool) && vf_other_push_ctx == (int)context && vf_t_other_push == vf_clock && vf_self_pushes == __CPROVER_old(vf_self_pushes)));
@@ -88,7 +91,7 @@ __CPROVER_ensures(ptr->val.val == (void *)p_ctx && vf_clock == __CPROVER_old(vf_
 
 /* ---- C models of the assembly (A4) ---- */
 unsigned vf_sw_calls; int vf_sw_kind; /* 1 switch 2 jump 3 switch_with_call 4 jump_with_call; +10 when init_and_* */
-fcontext_t *vf_sw_new, *vf_sw_old; void (*vf_sw_cb)(void *); void *vf_sw_cb_arg; void *vf_sw_stacktop; void (*vf_sw_entry)(fcontext_t *);
+fcontext_t *vf_sw_new, *vf_sw_old; void (*vf_sw_cb)(void *); void *vf_sw_stacktop; void (*vf_sw_entry)(fcontext_t *);
 ABTI_xstream *vf_resumed_on; /* the stream on which self finds itself when it runs again */
 static void vf_model_enter(int kind, fcontext_t *n, fcontext_t *o, void (*cb)(void *), void *arg, void (*entry)(fcontext_t *), void *top)
 {
@@ -99,7 +102,9 @@ static void vf_model_enter(int kind, fcontext_t *n, fcontext_t *o, void (*cb)(vo
     vf_sw_calls++; vf_sw_kind = kind; vf_sw_new = n; vf_sw_old = o; vf_sw_cb = cb; vf_sw_cb_arg = arg; vf_sw_entry = entry; vf_sw_stacktop = top;
     if (o) o->dummy = (void *)1; /* context saved */
     vf_ctx_saved = 1; vf_clock++; vf_t_save = vf_clock;
+    vf_sw_cb_arg_live = arg;
     if (cb) cb(arg);               /* the callback runs on the new context */
+    vf_sw_cb_arg_live = NULL;
 }
 static void vf_model_return(void)
 {
